@@ -47,6 +47,17 @@ claim('C09', 'boundary monitor (recording lists shadowing Analysis.cs/increments
       'call/log budgets derived from the settings (exceeding them is the violation that stands for non-termination). Thousands of distinct outcome words per run.',
       'termination is restated as a step bound computed from (initialInc, minInc, maxInc); fext/fint purity of the synthetic problems', '4/C09')
 
+claim('C02', 'reference-model monitor on Panel.calc_k0: entry-wise comparison with an energy Hessian obtained by numpy Gauss quadrature of the package\'s own strain field; metamorphic relations (tiling, pre-load) between real executions',
+      'Every entry of every returned k0 is compared (1e-10 of an absolute-value scale) with sum_p w_p B(p)^T F B(p), B recovered from Panel.strain on unit amplitudes '
+      '(ctypes basis + strain table for the w-only and conical models, radius frozen per section as the kernel does), F from the independent lamination oracle; exact symmetry, '
+      'zero outside the placed block, PSD, sub-interval tiling and the N_cte pre-load clause are further real executions. Hundreds to thousands of random panels per run over all four models.',
+      'strain recovery kernel cfstrain (itself judged by C11) or the ctypes basis (judged exactly by C10); conical strain table taken from the repository theory notebook (twist term coefficient 1)', '4/C02')
+claim('C03', 'reference-model monitor on Panel.calc_kG0 (analytic and state-based paths): entry-wise comparison with the pre-stress-work Hessian by quadrature of recovered slopes',
+      'kG0 from fkG0/fkG0y1y2 is compared entry-wise with sum_p w_p G^T N G (G = recovered slopes) for all load triples incl. shear/tension/mixed sign, all four models, sub-intervals and '
+      'placement; u/v rows must be exactly zero; linearity by three unit-load executions. The state-based fkG_num matrix is compared with the same form using N = A eps + B kappa computed by '
+      'the oracle at every integration point (NLgeom on/off, orders 2..64, uniform vs per-point table, uniform-membrane states reproducing the constant-load matrix).',
+      'Panel.uvw / Panel.strain recovery kernels (judged by C11); numpy leggauss points equal the package table to 1e-14 (C10)', '4/C03')
+
 ALL = ['C%02d' % i for i in range(1, 21)]
 PENDING_REASON = 'check not built yet in this round (runtime-monitoring plan in DESIGN.md section 4); will be claimed once its monitor runs silent on the unchanged tree'
 
